@@ -6,7 +6,7 @@ package main
 var charTable = map[string]rune{
 	"(": '(', ")": ')', "[": '[', "]": ']', ",": ',', ";": ';', "Q": '"',
 	"SP": ' ', "TAB": '\t', "NBSP": ' ', "IDSP": '　', "CR": '\r', "NL": '\n',
-	"E": 'é', "BS": '\\', "CTL": '\x01', "U": '€',
+	"Eacute": 'é', "BS": '\\', "CTL": '\x01', "U": '€',
 	"-": '-', "+": '+', ".": '.', "_": '_', "!": '!',
 	":": ':', "<": '<', "=": '=', ">": '>', "&": '&', "|": '|', "*": '*', "/": '/', "%": '%',
 }
@@ -16,7 +16,14 @@ func init() {
 	for c := 'a'; c <= 'z'; c++ {
 		charTable[string(c)] = c
 	}
-	charTable["K"], charTable["T"] = 'K', 'T'
+	for c := 'A'; c <= 'Z'; c++ {
+		switch c {
+		case 'Q', 'U': // "Q" is the double quote and "U" any other rune in the model's alphabet
+			charTable[string(c)+"_"] = c
+		default:
+			charTable[string(c)] = c
+		}
+	}
 	for c := '0'; c <= '9'; c++ {
 		charTable[string(c)] = c
 	}
